@@ -15,10 +15,26 @@ for d in sorted(glob.glob(os.path.join(V, "seeded", "*"))):
         (m.get("summary") or m.get("needs_to_manifest", "")).replace("\n", " ").replace("|", "/")[:230],
         "yes" if ok else "NO: " + ",".join(k for k, v in conf.items() if not v),
         " ".join(m.get("detected_by_quick", [])) or "-",
-        " ".join(m.get("detected_by_thorough_only", [])) or m.get("note", "") or "-"))
+        (" ".join(m.get("detected_by_thorough_only", [])) or m.get("notes", "") or m.get("note", "") or "-").replace("\n", " ").replace("|", "/")))
 tab = ["### 10.6 Seeded changes and the checks that catch them", "",
        "Each change was written by a fresh sub-agent that saw only the property text and its own scratch worktree, then confirmed by `tools/validate_mut.sh` in a fresh worktree (demo passes before / fails after the patch, library builds with and without the tag, the 66 existing tests pass). \"caught by (quick)\" lists every check whose quick tier exits 1 on the patched tree.", "",
        "| seeded change | breaks | what it is / what it needs | confirmed | caught by (quick) | notes |", "|---|---|---|---|---|---|"] + rows
+# 10.7: what the committed evidence files say
+ev = ["### 10.7 Evidence committed with this tree (from /verif/evidence/*.json)", "",
+      "| check | tier | seed | runs | distinct non-trivial | events | wall s | runs/hour | faults injected (kinds: total) | violations |", "|---|---|---|---|---|---|---|---|---|---|"]
+for f in sorted(glob.glob(os.path.join(V, "evidence", "C*.json"))):
+    try:
+        e = json.load(open(f))
+    except Exception:
+        continue
+    cov = e.get("coverage", {})
+    ff = cov.get("faults_fired", {}) or {}
+    wall = e.get("wall_s", 0) or 0
+    runs = cov.get("evaluations", 0)
+    ev.append("| %s | %s | %s | %s | %s | %s | %.0f | %s | %d: %d | %s |" % (
+        e.get("property_id"), e.get("tier"), e.get("seed"), runs, cov.get("distinct_nontrivial"), cov.get("events", "-"),
+        wall, ("%.2g" % (runs * 3600.0 / wall)) if wall else "-", len(ff), sum(v for v in ff.values() if isinstance(v, int)), e.get("violations", 0)))
+tab = tab + [""] + ev
 s = open(os.path.join(V, "DESIGN.md")).read()
 i = s.find("### 10.6 Seeded changes")
 if i >= 0:
